@@ -42,6 +42,7 @@ fn main() {
             let outdir = arg(&args, "--out").expect("--out DIR");
             let text = std::fs::read_to_string(ops).unwrap();
             let lines: Vec<String> = text.lines().map(|s| s.to_string()).collect();
+            *interp::JOURNAL.lock().unwrap() = std::fs::File::create(format!("{}/oracle_live.txt", outdir)).ok();
             let rep = interp::run_ops(&lines);
             let mut f = std::io::BufWriter::new(std::fs::File::create(format!("{}/impl.txt", outdir)).unwrap());
             for a in &rep.answers {
